@@ -120,9 +120,11 @@ class SMCSampler(MCMCSampler):
             The new minimum step size if adaptive_min_step is True.
         """
         if not self.adaptive:
-            beta += beta_step
-            if beta >= 1.0:
-                beta = 1.0
+            # Index-based update: accumulating beta += 1/n in floating point
+            # can fall just short of 1 and add a spurious extra iteration.
+            n_total = max(int(round(1.0 / beta_step)), 1)
+            step_index = int(round(beta * n_total)) + 1
+            beta = 1.0 if step_index >= n_total else step_index / n_total
         else:
             beta_prev = beta
             beta_min = beta_prev
